@@ -1321,7 +1321,8 @@ reply_parse(struct evdns_base *base, u8 *packet, int length)
 		 */
 		tmp_name[0] = '\0';
 		cmp_name[0] = '\0';
-		k = j;
+		/* our own question always follows the 12-byte header */
+		k = 12;
 		if (name_parse(packet, length, &j, tmp_name, sizeof(tmp_name)) < 0)
 			goto err;
 		if (name_parse(req->request, req->request_len, &k,
